@@ -333,6 +333,9 @@ func (p *Path) sprintf(format string, args []Value) (Str, []Value) {
 		}
 		flush()
 		s, _ := p.formatValue(verb, a, fl)
+		if p.hasSecret(a) {
+			s.Secret = true
+		}
 		parts = append(parts, s)
 	}
 	flush()
@@ -345,10 +348,11 @@ func (p *Path) sprintf(format string, args []Value) (Str, []Value) {
 
 func strConcat(a, b Str) Str {
 	if a.Sym == nil && b.Sym == nil {
-		return Str{C: a.C + b.C, Poison: a.Poison || b.Poison}
+		return Str{C: a.C + b.C, Poison: a.Poison || b.Poison, Secret: a.Secret || b.Secret}
 	}
 	r := StrFromTerms(append(append([]*Term{}, a.Bytes()...), b.Bytes()...))
 	r.Poison = a.Poison || b.Poison
+	r.Secret = a.Secret || b.Secret
 	return r
 }
 
@@ -1268,6 +1272,13 @@ func init() {
 			idx[i] = i
 		}
 		out := make([]Value, 0, n)
+		if p.h.Params["fixed_peer_order"] == 1 {
+			// scenario harnesses bound the exploration by fixing random orders to the identity (stated as a bound)
+			for _, i := range idx {
+				out = append(out, BVC(uint64(i), 64))
+			}
+			return Slice{A: out}
+		}
 		for len(idx) > 0 {
 			k := p.ChooseN(len(idx))
 			out = append(out, BVC(uint64(idx[k]), 64))
